@@ -652,5 +652,8 @@ func main() {
 	// the pure recursive core of cty.Type, translated (translate.go)
 	ndefs := translateTyFns(*repo, *leanDir, hdr)
 	fmt.Printf("ctyextract: %d Lean definitions translated from cty.Type's Equals/TestConformance/HasDynamicTypes/WithoutOptionalAttributesDeep\n", ndefs)
+	// the function-call protocol of cty/function/function.go, translated (translate_fn.go)
+	nfn := translateFnCall(*repo, *leanDir, hdr)
+	fmt.Printf("ctyextract: %d Lean definitions translated from function.Function's returnTypeForValues/ReturnTypeForValues/ReturnType/Call\n", nfn)
 	fmt.Printf("ctyextract: %d stdlib functions, %d op prologues, %d delimiters, %d+%d primitive conversions\n", len(fns), len(ps), len(rs), len(safe), len(unsafe))
 }
